@@ -184,6 +184,19 @@ CLAIMED['C12'] = dict(
     note='documented formulas are the oracle (typed independently); numeric comparison 1e-9 / 1e-7; bounded sizes',
     technique='TLA+ spec (Filters.tla) model-checked with TLC; spec->code replay of every enumerated history on 5 filter kinds',
     design='6/C12')
+CLAIMED['C13'] = dict(
+    engine='FilterPosterior',
+    text='FilterPosterior.tla extends PopLayout with the block layout [population | sigma | eta | epsilon] of the filter '
+         'posterior; TLC checks position<->slot bijection, counts, ID marking and that the transcribed scatter of pooled / '
+         'heterogeneous dimensions (_reshape_bottom_parameters with its shortcuts) and the gather target of '
+         '_remove_duplicates agree with the declarative source of every individual parameter, for every composition (the '
+         'as-found shortcuts are refuted). Every configuration is built as a real PopulationFilterLogPosterior; names, IDs, '
+         'counts literal; value up to one constant; gradient exact.',
+    note='bounded: <=2 (3) sub-models, <=2 dims, 2-3 simulated individuals, 1 (2) observables, <=2 times; one open known '
+         'finding (covariate model around a pooled / heterogeneous dimension)',
+    technique='TLA+ spec (FilterPosterior.tla extending PopLayout.tla) model-checked with TLC; spec->code replay of every '
+              'enumerated configuration',
+    design='6/C13')
 
 NOT_YET = {
 }
